@@ -1,4 +1,4 @@
-import ElvisVerif.Lemmas.ArpRun
+import ElvisVerif.Lemmas.ArpAgree
 /-!
 # C06 — ARP resolves an IP address to its owner's (or the gateway's) MAC
 
@@ -158,6 +158,38 @@ theorem c06_agreement {s : Net} (hr : Reach s) (hd : Distinct s) (r1 r2 : Resolv
     simp only [List.mem_singleton] at hm1 hm2
     rw [hm1, hm2]
 
+theorem Reach.ainv {s : Net} (h : Reach s) : AInv s := by
+  obtain ⟨neg, slots, mtu, ls, rfl⟩ := h
+  exact (AInv.init neg slots mtu).run (TInv.init neg slots mtu) ls
+
+/-- Concurrent resolvers of one address on one machine that both succeed do so in the same
+    virtual instant: once one of them has its answer the table keeps an `Ok` entry, every other
+    waiter is runnable, and the clock cannot advance before it has run.  ("Concurrent": each call
+    started no later than the other returned.)  Together with `c06_agreement` — equal MACs — they
+    obtain the same answer at the same time, whatever the wake-up order. -/
+theorem c06_agreement_time {s : Net} (hr : Reach s) (r1 r2 : Resolver)
+    (h1 : r1 ∈ s.resolvers) (h2 : r2 ∈ s.resolvers) (hm : r1.mach = r2.mach) (hdest : r1.dest = r2.dest)
+    (m1 m2 : Mac) (t1 t2 : Nat) (e1 : r1.result = some (.ok m1, t1)) (e2 : r2.result = some (.ok m2, t2))
+    (c1 : r1.started ≤ t2) (c2 : r2.started ≤ t1) : t1 = t2 := by
+  rcases hr.ainv.same r1 h1 r2 h2 ⟨hm, hdest⟩ m1 t1 m2 t2 e1 e2 with h | h | h
+  · exact h
+  · omega
+  · omega
+
+/-- while a resolver is still waiting for an address another resolver of the same machine already
+    has an answer for, time stands still: it is served in the same instant -/
+theorem c06_waiter_served_at_once {s : Net} (hr : Reach s) (r1 r2 : Resolver)
+    (h1 : r1 ∈ s.resolvers) (h2 : r2 ∈ s.resolvers) (hm : r1.mach = r2.mach) (hdest : r1.dest = r2.dest)
+    (m1 : Mac) (t1 : Nat) (e1 : r1.result = some (.ok m1, t1)) (e2 : r2.result = none) :
+    s.now = t1 ∧ ∀ dt, s.canTick dt = false := by
+  refine ⟨hr.ainv.frozen r1 h1 r2 h2 ⟨hm, hdest⟩ m1 t1 e1 e2, fun dt => ?_⟩
+  obtain ⟨mac', hh⟩ := (hr.ainv.stable r1 h1 m1 t1 e1).hit
+  unfold Net.canTick
+  rw [List.all_eq_false]
+  refine ⟨r2, h2, ?_⟩
+  rw [← hm, ← hdest]
+  simp [e2, hh]
+
 /-! ## c06_fail_bounded -/
 
 /-- the retry budget in virtual microseconds -/
@@ -302,7 +334,134 @@ theorem c06_success_if_one_exchange (s : Net) (i fi j slot sa : Nat) (r : Resolv
     simp only [hr3, hr2n, hhit, if_true]
     exact List.getElem?_set_self (getElem?_lt hr3)
 
+/-! ## never another machine's MAC -/
+
+/-- taps of different machines never share a MAC (`Network::next_mac` numbers them consecutively) -/
+theorem c06_macs_unique {s : Net} (hr : Reach s) (i j : Nat) (mi mj : Machine) (mac : Mac)
+    (hi : s.machines[i]? = some mi) (hj : s.machines[j]? = some mj) (h1 : mac ∈ mi.macs) (h2 : mac ∈ mj.macs) :
+    i = j := by
+  obtain ⟨neg, slots, mtu, ls, rfl⟩ := hr
+  have ht : (run (initWith neg slots mtu) ls).taps = assignMacs 0 slots := by
+    rw [run_taps, init_taps]
+  have hs := (assignMacs_sorted slots 0).1
+  rw [← ht] at hs
+  refine row_unique hs (i := i) (j := j) (li := mi.macs) (lj := mj.macs) ?_ ?_ h1 h2
+  · simp [Net.taps, hi]
+  · simp [Net.taps, hj]
+
+/-- A resolution never yields another machine's address: the MAC it returns belongs to a tap of
+    the machine claiming the destination and to no tap of any other machine. -/
+theorem c06_never_other_machine {s : Net} (hr : Reach s) (hd : Distinct s) (r : Resolver) (hmem : r ∈ s.resolvers)
+    (mac : Mac) (t : Nat) (e : r.result = some (.ok mac, t)) (j' : Nat) (o' : Machine)
+    (hj' : s.machines[j']? = some o') (hmac : mac ∈ o'.macs) : o'.owns r.dest = true := by
+  obtain ⟨j, o, hj, hx, hm, _⟩ := (c06_resolve_sound hr hd).2 r hmem mac t e
+  have : j' = j := c06_macs_unique hr j' j o' o mac hj' hj hmac hm
+  subst this
+  rw [hj] at hj'; cases hj'
+  exact hx
+
+/-! ## regression witnesses of F-C06-1 (fixed) -/
+
+/-- ten rounds without any delivery: the resolution started first gives up at 2 s -/
+def tenRounds : List Label :=
+  (List.range 10).flatMap fun _ => [Label.tick 200000, Label.timeout 0]
+
+/-- the owner of address 2 appears 0.5 s after a failed resolution; 0.5 s later the address is
+    resolved again on a loss-free network -/
+def staleWitness : List Label :=
+  [.listen 0 1, .resolve 0 1 2 0] ++ tenRounds ++
+  [.tick 500000, .listen 1 2, .tick 500000, .resolve 0 1 2 0, .deliver 10 1 0, .deliver 11 0 0, .wake 1]
+
+/-- a second resolver joins 0.1 s before the first one gives up; its request is answered 50 ms
+    after that -/
+def joinWitness : List Label :=
+  [.listen 0 1, .listen 1 2, .resolve 0 1 2 0] ++
+  ((List.range 9).flatMap fun _ => [Label.tick 200000, Label.timeout 0]) ++
+  [.tick 100000, .resolve 0 1 2 0, .tick 100000, .timeout 0, .wake 1,
+   .tick 50000, .deliver 10 1 0, .deliver 11 0 0, .wake 1]
+
+def resultOf (s : Net) (i : Nat) : Option (Status × Nat) := (s.resolvers[i]?).bind (·.result)
+
+/-- With the cached failure treated as an answer (the code before the fix) the second resolution
+    returns `Err` at once although the address is claimed and nothing is lost; with the fix it
+    returns the owner's MAC. -/
+theorem c06_stale_failure_regression :
+    resultOf (run (initWith true [1, 1] 65535) staleWitness) 1 = some (.err, 3000000) ∧
+    resultOf (run (initWith false [1, 1] 65535) staleWitness) 1 = some (.ok 1, 3000000) := by
+  constructor <;> decide
+
+/-- With the cached failure waking waiters (before the fix) the resolver that joined at 1.9 s
+    fails at 2.0 s, after 0.1 s of its 2 s budget; with the fix it gets the owner's answer at
+    2.05 s. -/
+theorem c06_early_failure_regression :
+    resultOf (run (initWith true [1, 1] 65535) joinWitness) 1 = some (.err, 2000000) ∧
+    resultOf (run (initWith false [1, 1] 65535) joinWitness) 1 = some (.ok 1, 2050000) := by
+  constructor <;> decide
+
 /-- the retry budget of the code as extracted: 10 requests, 200 ms apart, 2 s in all -/
 theorem c06_budget_value : resendTries = 10 ∧ resendDelayUs = 200000 ∧ budgetUs = 2000000 := by decide
+
+/-! ## non-vacuity: a concrete reachable state satisfying the hypotheses above -/
+
+/-- the state after `staleWitness` on the fixed code: machine 0 (MAC 0) claims address 1,
+    machine 1 (MAC 1) claims address 2, the first resolution failed, the second returned MAC 1 -/
+def exampleState : Net := run (initWith false [1, 1] 65535) staleWitness
+
+theorem exampleState_reach : Reach exampleState := ⟨false, [1, 1], 65535, staleWitness, rfl⟩
+
+theorem exampleState_machines :
+    exampleState.machines =
+      [⟨[0], [(1, none)], [(2, .ok 1)]⟩, ⟨[1], [(2, none)], [(1, .ok 0)]⟩] := by decide
+
+theorem exampleState_distinct : Distinct exampleState := by
+  intro i j mi mj x hi hj oi oj
+  rw [exampleState_machines] at hi hj
+  have own0 : ∀ y, Machine.owns ⟨[0], [(1, none)], [(2, .ok 1)]⟩ y = true → y = 1 := by
+    intro y h
+    simp only [Machine.owns, alookup] at h
+    by_cases hy : 1 = y
+    · exact hy.symm
+    · simp [hy] at h
+  have own1 : ∀ y, Machine.owns ⟨[1], [(2, none)], [(1, .ok 0)]⟩ y = true → y = 2 := by
+    intro y h
+    simp only [Machine.owns, alookup] at h
+    by_cases hy : 2 = y
+    · exact hy.symm
+    · simp [hy] at h
+  match i, j with
+  | 0, 0 => rfl
+  | 1, 1 => rfl
+  | 0, 1 =>
+    simp only [List.getElem?_cons_zero, List.getElem?_cons_succ, Option.some.injEq] at hi hj
+    subst hi; subst hj
+    have h1 := own0 x oi; have h2 := own1 x oj
+    rw [h1] at h2; cases h2
+  | 1, 0 =>
+    simp only [List.getElem?_cons_zero, List.getElem?_cons_succ, Option.some.injEq] at hi hj
+    subst hi; subst hj
+    have h1 := own1 x oi; have h2 := own0 x oj
+    rw [h1] at h2; cases h2
+  | 0, j + 2 => simp at hj
+  | 1, j + 2 => simp at hj
+  | i + 2, _ => simp at hi
+
+example : (exampleState.resolvers.map (·.result)) = [some (.err, 2000000), some (.ok 1, 3000000)] := by decide
+
+/-- the soundness theorem applied to the concrete state: the second resolution's MAC 1 is a tap
+    of the machine claiming address 2 -/
+example : OwnerMac exampleState 2 1 := by
+  have h := (c06_resolve_sound exampleState_reach exampleState_distinct).1 0
+    ⟨[0], [(1, none)], [(2, .ok 1)]⟩ 2 1 (by rw [exampleState_machines]; rfl) (by decide)
+  exact h
+
+/-- gateway substitution on concrete values: 10.0.0.1/24 → 10.0.1.3 goes to the gateway 10.0.0.2;
+    → 10.0.0.77 stays -/
+example : destOf ⟨[0], [(0x0A000001, some ⟨maskFromBitcount 24, 0x0A000002⟩)], []⟩ 0x0A000001 0x0A000103 = 0x0A000002 := by decide
+example : destOf ⟨[0], [(0x0A000001, some ⟨maskFromBitcount 24, 0x0A000002⟩)], []⟩ 0x0A000001 0x0A00004D = 0x0A00004D := by decide
+example : (List.range 34).map maskFromBitcount =
+    [0, 0x80000000, 0xC0000000, 0xE0000000, 0xF0000000, 0xF8000000, 0xFC000000, 0xFE000000, 0xFF000000,
+     0xFF800000, 0xFFC00000, 0xFFE00000, 0xFFF00000, 0xFFF80000, 0xFFFC0000, 0xFFFE0000, 0xFFFF0000,
+     0xFFFF8000, 0xFFFFC000, 0xFFFFE000, 0xFFFFF000, 0xFFFFF800, 0xFFFFFC00, 0xFFFFFE00, 0xFFFFFF00,
+     0xFFFFFF80, 0xFFFFFFC0, 0xFFFFFFE0, 0xFFFFFFF0, 0xFFFFFFF8, 0xFFFFFFFC, 0xFFFFFFFE, 0xFFFFFFFF, 0xFFFFFFFF] := by decide
 
 end Elvis.Arp
